@@ -16,7 +16,9 @@ RULE = ("12-byte signatures with independent random bytes in all 12 positions (s
         "lists of 0..40 entries, register dumps of 0..6 chips x 0..12 registers x data sizes 1..255, scratch-register and "
         "callout-FFDC sections; driven through direct ParserData calls, through 0xE500 user-data sections of BMC PELs and "
         "through BD..E5.. primary SRCs (words 6..8).  Wrappers over ParserData.get_signature/get_reg_data and the two oe500 "
-        "plugin entry points compare every call with sig_ref / the section model.  Non-trivial: all; distinct = input bytes.")
+        "plugin entry points compare every call with sig_ref / the section model.  Models without chip data include the 8-hex-"
+        "digit constants harvested from the loaded hw-diags modules and EC-level / one-bit neighbours of known models; pairs of "
+        "(node, position) whose digits glue to the same string.  Non-trivial: all; distinct = input bytes.")
 ASSUMPTIONS = ["chip data files follow the upstream layout (lower-case hex keys; [name, {bit: desc}] / [name, {inst: addr}])",
                "register data size 0 is outside the stated 1..255"]
 
